@@ -302,7 +302,9 @@ theorem handle_idlAll (s : St) (p : Parked) (kn : Nat → Bool) (op : Op) (h : I
     | exact handleMetadataReject_idlAll (s, []) _ h
     | exact handlePeerSnubbed_idlAll (s, []) _ h
     | exact closePeerM_idlAll (s, []) _ h
-    | (simp only [onSt_fst]; exact (stop_idlAll s false h).of_eq rfl)
+    | (simp only [onSt_fst]; exact (stop_idlAll { s with doVerify := false } false (h.of_eq rfl)).of_eq rfl)
+    | (simp only [onSt_fst]; exact stop_idlAll { s with doVerify := false } false (h.of_eq rfl))
+    | exact handleVerifyCommand_idlAll ({ s with persisted := none }, []) (h.of_eq rfl)
     | (simp only [onSt_fst]; exact (handleVerifyCommand_idlAll ({ s with persisted := none }, []) (h.of_eq rfl)).of_eq rfl)
     | (next heq => have hm := congrArg Prod.fst heq; simp only at hm; rw [← hm]; refine h.of_eq ?_; simp; done)
     | (refine h.of_eq ?_; simp; done)
